@@ -55,12 +55,17 @@ def run(ctx):
                 "is the reference reading of 12.5 / 12.7: each page's /Annots lists exactly the authored annotations in order with "
                 "the authored subtype, rectangle and decoded text entries, /AcroForm /Fields lists each authored field once "
                 "under its decoded name with the authored type, value and kind flags, every widget names its field as /Parent.  "
+                "Tagged documents (MCDoc.DocT): pages of 1-3 marked-content sequences and a structure tree of 3-5 elements of "
+                "varying shape owning them across pages; module Tagged is the reference reading of 14.7: the hierarchy under "
+                "/StructTreeRoot is the authored tree (types, /P back-links, kids in order, marked-content references, decoded "
+                "attributes), every tagged page has its own /StructParents key, and the /ParentTree number tree leads from each "
+                "owned MCID to its element, an MCID the page content really opens.  "
                 "Non-trivial = every document; distinct by hash.")
     ctx.assumptions = ["zlib inflate of object-stream / cross-reference-stream payloads is the python primitive",
                        "the configuration (object streams, cross-reference stream, uncompressed) is not generated: its cross-reference stream alone is 6 MB because object streams are numbered from 1 000 000",
                        "documents are authored through Document/Page/GraphicsContext/TextContext, the annotation builders and FormManager (no embedded fonts, large images or encryption here: those are C13, C24, C05); file-attachment annotations are left out (the builder is a documented stub that drops the file data), link annotations to pages are left out (the API takes an object reference the caller cannot know)"]
     of = generate_docs(ctx, thorough)
-    tp = run_docs(ctx, of, ("chk_file", "chk_lib", "chk_interactive"))
+    tp = run_docs(ctx, of, ("chk_file", "chk_lib", "chk_interactive", "chk_tagged"))
     ctx.exhaustive = False
     vlib.validate_cases(ctx, "syntax", "FileTrace", tp, "file", describe=describe, timeout=6000, marker="file")
     cases = vlib.split_cases(vlib.read_ndjson(tp), marker="file")
@@ -157,6 +162,28 @@ def run(ctx):
                             return True
         return False
 
+    def tag_owner(evs):
+        for e in evs:
+            if e["ev"] == "file" and e["built"]:
+                t = e["prog"].get("tags", [])
+                src = [x for x in t if x["mcids"]]
+                if len(t) >= 3 and src:
+                    m = src[0]["mcids"].pop(0)
+                    dst = [x for x in t if x is not src[0] and x["parent"] != 0][0]
+                    dst["mcids"].append(m)
+                    return True
+        return False
+
+    def tag_shape(evs):
+        for e in evs:
+            if e["ev"] == "file" and e["built"] and len(e["prog"].get("tags", [])) >= 4:
+                t = e["prog"]["tags"][3]
+                t["parent"] = 1 if t["parent"] != 1 else 2
+                return True
+        return False
+
+    vlib.expect_reject(ctx, "syntax", "FileTrace", tp, tag_owner, "an authored marked-content reference moved to another structure element", marker="file")
+    vlib.expect_reject(ctx, "syntax", "FileTrace", tp, tag_shape, "an authored structure element hung under another parent", marker="file")
     vlib.expect_reject(ctx, "syntax", "FileTrace", tp, annot_text, "one character of an authored annotation text changed", marker="file")
     vlib.expect_reject(ctx, "syntax", "FileTrace", tp, annot_order, "two authored annotations of a page swapped", marker="file")
     vlib.expect_reject(ctx, "syntax", "FileTrace", tp, field_name, "one character of an authored field name changed", marker="file")
